@@ -1043,6 +1043,13 @@ func stmtLevelCall(n ast.Node) *ast.CallExpr {
 		}
 	case ast.Expr:
 		e = x // a bare expression node: range operand, branch condition, switch tag
+		for {
+			if u, ok := ast.Unparen(e).(*ast.UnaryExpr); ok && u.Op == token.NOT {
+				e = u.X // `if !helper(...)`
+				continue
+			}
+			break
+		}
 	}
 	if e == nil {
 		return nil
@@ -1107,6 +1114,47 @@ func (f *FuncCFG) expand(depth int, onStack map[*types.Func]bool) {
 			// graph would contain the infeasible path "helper failed, caller saw no error".
 			var tailOK, tailFail *cfg.Block
 			boolCorr := false // tailOK = the result is true, tailFail = the result is false
+			if len(tail.Nodes) == 1 && len(tail.Succs) == 2 {
+				// boolean correlation, direct form: `if helper(...)` / `if !helper(...)`
+				if cond, isExpr := tail.Nodes[0].(ast.Expr); isExpr {
+					c, neg := ast.Unparen(cond), false
+					for {
+						if u, ok := c.(*ast.UnaryExpr); ok && u.Op == token.NOT {
+							neg, c = !neg, ast.Unparen(u.X)
+							continue
+						}
+						break
+					}
+					if bt, ok := f.Info.TypeOf(call).Underlying().(*types.Basic); ok && c == ast.Expr(call) && bt.Info()&types.IsBoolean != 0 {
+						sink := &cfg.Block{Kind: cfg.KindUnreachable, Live: false}
+						trueSucc, falseSucc := tail.Succs[0], tail.Succs[1]
+						if neg {
+							trueSucc, falseSucc = tail.Succs[1], tail.Succs[0]
+						}
+						mk := func(val bool) *cfg.Block {
+							nb := &cfg.Block{Nodes: tail.Nodes, Kind: tail.Kind, Live: true, Stmt: tail.Stmt}
+							t, fl := sink, sink
+							switch {
+							case val && !neg:
+								t = trueSucc
+							case val && neg:
+								fl = trueSucc
+							case !val && !neg:
+								fl = falseSucc
+							default:
+								t = falseSucc
+							}
+							nb.Succs = []*cfg.Block{t, fl}
+							f.expandedHead[nb] = true
+							f.regionOf[nb] = f.regionOf[b]
+							return nb
+						}
+						tailOK, tailFail = mk(true), mk(false)
+						boolCorr = true
+						f.G.Blocks = append(f.G.Blocks, tailOK, tailFail, sink)
+					}
+				}
+			}
 			if len(tail.Nodes) == 2 && len(tail.Succs) == 2 {
 				if cond, isExpr := tail.Nodes[1].(ast.Expr); isExpr {
 					// boolean correlation: `v := helper(...)` followed at once by `if v` / `if !v`
